@@ -28,8 +28,8 @@ type Input struct {
 
 // Replay is the native run state.
 type Replay struct {
-	Inputs  []Input           `json:"inputs"`
-	Params  map[string]string `json:"params"`
+	Inputs []Input           `json:"inputs"`
+	Params map[string]string `json:"params"`
 	// Docs: documents built by Arbitrary under the symbolic executor, rendered as text
 	Docs    map[string]string `json:"docs"`
 	pos     int
